@@ -149,7 +149,7 @@ def _run_unit(unit, use_cache, with_canary, demote):
     t0 = time.time()
     try:
         text, recs, meta = assemble(unit, demote=demote)
-    except (AnchorLost, Unsupported, KeyError, FileNotFoundError) as e:
+    except (AnchorLost, Unsupported, KeyError, FileNotFoundError, ValueError) as e:
         res.status = "undecided"
         res.reason = "extraction: %s: %s" % (type(e).__name__, e)
         return res
